@@ -8,7 +8,7 @@
 EXTENDS ModeFile, Calendar, FiniteSets
 
 (* an action: op, word a, padding p and time zone tz of a SetMode argument (tz = "" UTC, "east" / "west": the same instant *)
-(* given in a zone far ahead of / behind UTC), two numbers, and whether the call succeeded                               *)
+(* given in a zone far ahead of / behind UTC; it must not matter), two numbers, and whether the call succeeded                               *)
 ActZ(op, a, p, tz, n1, n2, ok) == [op |-> op, a |-> a, p |-> p, tz |-> tz, n1 |-> n1, n2 |-> n2, ok |-> ok]
 ActP(op, a, p, n1, n2, ok) == ActZ(op, a, p, "", n1, n2, ok)
 Act(op, a, n1, n2, ok) == ActP(op, a, "", n1, n2, ok)
@@ -182,10 +182,13 @@ C_OtherBehavesLocal(a, s, t) ==
 
 (* "setting a valid mode then reading it back yields the same mode and date     *)
 (* while an invalid mode is rejected leaving the file unchanged"                *)
-(* the date: the UTC date of the instant; when the instant was given in another *)
-(* zone the documentation does not say which calendar counts, so the date in    *)
-(* that zone (a day earlier or later) is not a violation                        *)
-DateOK(a, d) == IF a.tz = "" THEN d = a.n1 ELSE d \in {a.n1 - 1, a.n1, a.n1 + 1}
+(* the date: the UTC date of the instant, in whatever zone the instant was      *)
+(* given: the mode file's date is read back as 00:00 UTC of that day and        *)
+(* counter files begin at 00:00 UTC, so a date taken from another calendar      *)
+(* would move the opt-in instant by up to a day (and let data from before it    *)
+(* be uploaded).  tz = "race": the harness saw midnight UTC pass during the     *)
+(* call, either day is right.                                                   *)
+DateOK(a, d) == IF a.tz = "race" THEN d \in {a.n1 - 1, a.n1} ELSE d = a.n1
 C_SetGet(a, s, t) ==
     a.op = "set" =>
        LET accepted == a.ok /\ ReadBack(t.modeFile)[1] = a.a /\ DateOK(a, ReadBack(t.modeFile)[2])
